@@ -74,7 +74,7 @@ impl Group for C07 {
     fn budget(&self, tier: Tier) -> usize {
         match tier {
             Tier::Quick => 1500,
-            Tier::Thorough => 40000,
+            Tier::Thorough => 30000,
         }
     }
     fn corpus(&self) -> Vec<Vec<String>> {
@@ -94,6 +94,15 @@ impl Group for C07 {
                 "close1 2 1 2 1000000 20 22 0 0 1998000 3 22 1 0",
                 "hold 2 0 1999000 1000000 0 0 1",
                 "close2 1998000 1000000 1 20 22 0 0 1 20 22 0 0",
+            ]),
+            // finding C07-S1: with max_feerate_per_kw = u32::MAX a funder close burning 31 BTC as fee is signed
+            v(&[
+                "policy 0 4 2016 10000000000 10000 1000 16777216 0 253 4294967295 222000 0",
+                "setup 1 5000000000 0 6 7 1 0 0 0",
+                "cp 0 0 0 4999999000 0 0 0",
+                "hold 0 0 4999999000 0 0 0 1",
+                "revoke 0",
+                "close2 1899033614 0 1 1 22 1 0 0 0 0 0 0",
             ]),
             // fundee: holder value must be within epsilon of both commitments
             v(&[
@@ -164,9 +173,11 @@ impl Group for C07 {
         ops.push("revoke 0".into());
         // commitment 1: balances A (holder) / B (counterparty); the two sides' views differ by d
         let f1 = f0 + rng.below(500);
-        let a = match rng.below(6) {
+        let a = match rng.below(8) {
             0 => 0,
             1 => value - f1,
+            // both sides' balances within epsilon of each other: the likely/unlikely guess matters
+            2 | 3 => ((value - f1) / 2).saturating_sub(pol.eps / 2) + rng.below(pol.eps + 2),
             _ => rng.range(400, value - f1 - 400),
         };
         let b = value - f1 - a;
